@@ -12,7 +12,10 @@ F_CP = 'atsim/potentials/config/_config_parser.py'
 F_PFB = 'atsim/potentials/config/_potential_form_builder.py'
 FUNCTIONS = [(F, 'Multi_Range_Potential_Form._range_search'), (F, 'Multi_Range_Potential_Form.__call__'), (F, 'Multi_Range_Potential_Form_Deriv.deriv'),
              (F, 'Multi_Range_Potential_Form_Deriv2.deriv2'), (F, 'Multi_Range_Defn.__init__'), (F, '_range_defn_cmp'),
-             (contracts.potential.F_UTIL, 'gradient')]
+             (contracts.potential.F_UTIL, 'gradient'), (F, 'Multi_Range_Potential_Form.range_defns.setter'),
+             (F_PFB, 'Potential_Form_Builder._make_multi_range_tuple'), (F_PFB, 'Potential_Form_Builder.create_potential_function')]
+import contracts.form_builder as FB
+SPECSEQS = [FB.chain_ranges]
 
 def lemmas():
     out = []
@@ -24,6 +27,10 @@ def lemmas():
     L('order-total', [mk(a), mk(b)], z3.Or(MR.key_le(a, b), MR.key_le(b, a)))
     L('order-transitive', [mk(a), mk(b), mk(c), MR.key_le(a, b), MR.key_le(b, c)], MR.key_le(a, c))
     L('order-antisymmetric-on-keys', [mk(a), mk(b), MR.key_le(a, b), MR.key_le(b, a)], z3.And(MR.start(a) == MR.start(b), MR.rtype(a) == MR.rtype(b)))
+    # cmp(a, b) <= 0 iff a is no later than b in canonical order (the order the sort contract uses), from the comparator's own postconditions
+    res = z3.Int('cmp_result')
+    L('comparator-order', [mk(a), mk(b), (res < 0) == z3.And(MR.key_le(a, b), z3.Not(MR.key_le(b, a))), (res > 0) == z3.And(MR.key_le(b, a), z3.Not(MR.key_le(a, b))),
+                           (res == 0) == z3.And(MR.start(a) == MR.start(b), MR.rtype(a) == MR.rtype(b))], (res <= 0) == MR.key_le(a, b))
     # statement clauses from the canonical order:
     #  - greatest start: a range containing r that comes later in canonical order has a start >= any earlier one
     L('later-in-order-means-start-not-smaller', [mk(a), mk(b), MR.key_le(a, b)], MR.start(a) <= MR.start(b))
@@ -35,7 +42,7 @@ def lemmas():
     #  - below the first range nothing contains r
     L('below-every-start-nothing-contains-r', [r < MR.start(a)], z3.Not(MR.holds(a, r)))
     S = B.source_shape
-    out.append(S('C08', F, 'Multi_Range_Potential_Form.range_defns.setter', 'sorted-with-the-comparator', ['tuples = list(range_defns)', 'tuples.sort(key=_range_defn_key)', 'self._range_defns = tuples']))
+    # the setter (sort with the comparator), Potential_Form_Builder._make_multi_range_tuple and .create_potential_function are under Engine A contracts
     from pyvc.extract import Module
     import ast
     m = Module.get(F)
@@ -47,14 +54,11 @@ def lemmas():
     # potable: a definition without a leading marker acts for r > 0
     out.append(S('C08', F_CP, 'ConfigParser._descend_tree', 'default-start-when-no-marker', ['range_defn = self._default_range_start', "range_defn = MultiRangeDefinitionTuple(range_type=first['range_type'], start=first['start'])"]))
     out.append(S('C08', F_CP, 'ConfigParser.__init__', 'default-start-is->0', ["self._default_range_start = MultiRangeDefinitionTuple('>', 0.0)"]))
-    out.append(S('C08', F_PFB, 'Potential_Form_Builder._make_multi_range_tuple', 'marker-and-start-passed-through',
-                 ['start = pform_instance.start.start', 'range_type = pform_instance.start.range_type', 'mr_tuple = Multi_Range_Defn(range_type, start, pform)']))
-    out.append(S('C08', F_PFB, 'Potential_Form_Builder.create_potential_function', 'one-range-per-chain-member',
-                 ['tuples = [self._make_multi_range_tuple(potential_form_instance)]', 'n = potential_form_instance.next', 'while n:\n    tuples.append(self._make_multi_range_tuple(n))\n    n = n.next',
-                  'pot_func = create_Multi_Range_Potential_Form(*tuples)']))
     return out
 
 MUTANTS = [
+    (F, 'Multi_Range_Potential_Form.range_defns.setter', "tuples.sort(key=_range_defn_key)", "pass", 'post'),
+    (F, 'Multi_Range_Potential_Form.range_defns.setter', "self._range_defns = tuples", "self._range_defns = list(range_defns)", 'post'),
     (F, 'Multi_Range_Potential_Form._range_search', "r <= t.start", "r < t.start", 'post'),
     (F, 'Multi_Range_Potential_Form._range_search', "rt[0].range_type == '>'", "rt[0].range_type == '>='", 'post'),
     (F, '_range_defn_cmp', "if a.range_type == '>=' and b.range_type == '>':\n            return -1", "if a.range_type == '>=' and b.range_type == '>':\n            return 1", 'post'),
